@@ -200,9 +200,9 @@ func apuGenSamples(c *Ctx, w *trace.Writer) {
 		}
 		// channel 1 with the sweep unit changing the frequency while it plays
 		rng := c.Rand(2102)
-		ns := 12
+		ns := 40
 		if c.Thorough() {
-			ns = 200
+			ns = 300
 		}
 		for i := 0; i < ns; i++ {
 			w.Put(sweepRun(fmt.Sprintf("gen-sweep-%d", i), rng.Int63n(1<<40)))
